@@ -1,3 +1,4 @@
+pub mod c10;
 pub mod c12;
 pub mod c15;
 pub mod screen_props;
@@ -20,6 +21,7 @@ pub struct PropResult {
 pub fn run(id: &str, cfg: &RunCfg) -> Option<PropResult> {
     match id {
         "C01" | "C02" | "C03" | "C04" | "C19" => Some(screen_props::run(id, cfg)),
+        "C10" => Some(c10::run(cfg)),
         "C12" => Some(c12::run(cfg)),
         "C15" => Some(c15::run(cfg)),
         _ => None,
